@@ -36,7 +36,7 @@ Init ==
   /\ gens = 0
 
 E == Ev[l]
-Step(cond) == l <= Len(Ev) /\ cond /\ l' = l + 1 /\ UNCHANGED tr
+Step(cond) == l <= Len(Ev) /\ l' = l + 1 /\ UNCHANGED tr /\ cond
 
 EvInit ==
   Step(E.e = "init" /\ cur = 0 /\ open = 0)
